@@ -104,10 +104,15 @@ func c11Set(res *explore.Result, contents []string, verbose bool) {
 		build func() (*parsley.FileSet, []*text.File)
 		order string
 	}
+	// a reader is created on every file BEFORE the file joins a set (the order examples/json uses): the positions it
+	// hands out afterwards must be the file's
+	var readers []*text.Reader
 	mk := func() []*text.File {
 		fs := make([]*text.File, len(contents))
+		readers = make([]*text.Reader, len(contents))
 		for i, c := range contents {
 			fs[i] = text.NewFile(nameOf(i), []byte(c))
+			readers[i] = text.NewReader(fs[i])
 		}
 		return fs
 	}
@@ -171,6 +176,7 @@ func c11Set(res *explore.Result, contents []string, verbose bool) {
 	}
 	for _, v := range variants {
 		diskNames = nil
+		readers = nil
 		fs, files := v.build()
 		res.Add("states", 1)
 		seenGlobal := map[int]string{}
@@ -229,6 +235,10 @@ func c11Set(res *explore.Result, contents []string, verbose bool) {
 			for off := 0; off <= len(norm[i]); off++ {
 				res.Add("transitions", 1)
 				gp := int(f.Pos(off))
+				if readers != nil && int(readers[i].Pos(off)) != bases[i]+off {
+					res.Violate("Reader.Pos", fmt.Sprintf("%s (%s): a reader created on file %d before the set was built gives Pos(%d) = %d, expected %d", desc, v.name, i, off, int(readers[i].Pos(off)), bases[i]+off), cs)
+					return
+				}
 				if gp != bases[i]+off {
 					res.Violate("File.Pos", fmt.Sprintf("%s (%s): file %d Pos(%d) = %d, expected %d", desc, v.name, i, off, gp, bases[i]+off), cs)
 					return
@@ -303,9 +313,9 @@ type c11Bound struct {
 
 func c11Bounds(tier string) []c11Bound {
 	if tier == "thorough" {
-		return []c11Bound{{1, 9, false}, {2, 6, false}, {3, 4, false}, {1, 7, true}, {2, 3, true}}
+		return []c11Bound{{1, 9, false}, {2, 6, false}, {3, 4, false}, {4, 2, false}, {5, 1, false}, {6, 1, false}, {7, 1, false}, {1, 7, true}, {2, 3, true}}
 	}
-	return []c11Bound{{1, 7, false}, {2, 5, false}, {3, 3, false}, {1, 5, true}, {2, 2, true}}
+	return []c11Bound{{1, 7, false}, {2, 5, false}, {3, 3, false}, {4, 1, false}, {5, 1, false}, {6, 1, false}, {1, 5, true}, {2, 2, true}}
 }
 
 func c11Run(env *explore.Env) *explore.Result {
